@@ -11,6 +11,7 @@ import (
 	"strconv"
 	"strings"
 	"sync"
+	"syscall"
 	"sync/atomic"
 	"time"
 
@@ -273,6 +274,7 @@ type sink struct {
 	failAfter   int  // -1: never; otherwise accept this many bytes then fail every Write
 	failClose   bool // Close returns an error
 	failedWrite int
+	transientAt int // > 0: the Write call of that rank takes nothing and fails once with EAGAIN; the others succeed
 }
 
 func newSink() *sink { return &sink{closedCh: make(chan struct{}), failAfter: -1} }
@@ -286,6 +288,10 @@ func (s *sink) Write(p []byte) (int, error) {
 		s.writeAfter = true
 	}
 	s.writes++
+	if s.transientAt > 0 && s.writes == s.transientAt {
+		s.failedWrite++
+		return 0, syscall.EAGAIN
+	}
 	if s.failAfter >= 0 {
 		room := s.failAfter - len(s.buf)
 		if room < len(p) {
